@@ -161,6 +161,13 @@ func (e *Exec) applyContractFull(con *Contract, fn *ssa.Function, sig *types.Sig
 			cv[k] = v
 		}
 		cenv := &Env{e: e, vars: cv, st: pre, old: e.entry, pkgPath: e.Con.PkgPath, lookup: e.localEnv(pre)}
+		if ac.Assign != nil {
+			genv := &Env{e: e, vars: cv, st: s, old: e.entry, pkgPath: e.Con.PkgPath, lookup: e.localEnv(s)}
+			e.ghostAssignEnv(s, genv, ac.Assign)
+			pre = s.clone()
+			env.st, env.old = pre, pre
+			continue
+		}
 		t := e.evalSpecBool(cenv, ac.Clause.Expr, e.Con, "atcall")
 		e.oblige("atcall", ac.Clause.Label+"@"+short+caseLabel, ac.Clause.Text, ac.Clause.Props, "", t)
 		e.assume(t) // assert-then-assume: later obligations may use it as a lemma
